@@ -55,6 +55,7 @@ func affine(f *eng.Fn, e ast.Expr) string {
 func runC11(p *eng.Prog, r *eng.Report, tier string) {
 	c := &cx{p, r, tier}
 	c11ElementIsCharData(c, "C11.14")
+	c11LengthLimitsOnCanonicalParts(c, "C11.15")
 	// ---- C11.1 who may write ---------------------------------------------------
 	allowed := map[string]bool{"jid.New": true, "jid.JID.WithLocal": true, "jid.JID.WithDomain": true, "jid.JID.WithResource": true, "jid.JID.Bare": true, "jid.JID.Domain": true,
 		"jid.(*JID).UnmarshalXML": true, "jid.(*JID).UnmarshalXMLAttr": true, "jid.NewUnsafe": true}
@@ -1013,4 +1014,42 @@ func c11ElementIsCharData(c *cx, id string) {
 		}
 	}
 	c.r.Check(id, m, "address written as character data", "T: MarshalXML writes xml.CharData(j.String()) between the start and end token", m.Pos(), okm, "no EncodeToken(xml.CharData(j.String()))")
+}
+
+// c11LengthLimitsOnCanonicalParts (C11.15): the 1023-byte limits are limits of
+// the canonical parts (mapping may shorten a part: fullwidth letters,
+// decomposed accents, ideographic full stops). The three length errors are
+// produced only by the functions that are handed enforced bytes (localChecks,
+// resourceChecks, normalizeDomainpart - C11.13 decides that what they are
+// handed is the enforced buffer); a length test on a raw part, in
+// splitString say, makes Parse refuse a string whose parts New accepts.
+func c11LengthLimitsOnCanonicalParts(c *cx, id string) {
+	allowed := map[string]map[string]bool{
+		"errLongLocalpart":    {"jid.localChecks": true},
+		"errLongResourcepart": {"jid.resourceChecks": true},
+		"errInvalidDomainLen": {"jid.normalizeDomainpart": true},
+	}
+	n := 0
+	for _, f := range c.allFns() {
+		if !strings.HasPrefix(f.Short, "jid.") || f.Body == nil {
+			continue
+		}
+		f.WalkBody(func(nd ast.Node) bool {
+			idn, ok := nd.(*ast.Ident)
+			if !ok {
+				return true
+			}
+			al, isLen := allowed[idn.Name]
+			if !isLen {
+				return true
+			}
+			if v, isVar := f.Info().Uses[idn].(*types.Var); !isVar || v.Pkg() == nil || v.Parent() != v.Pkg().Scope() {
+				return true
+			}
+			n++
+			c.r.Check(id, f, "length error "+idn.Name, "C: a length error is reported only by the check of the canonical (enforced / mapped) part", idn.Pos(), al[f.Short], "the limit is applied in "+f.Short+", i.e. to bytes that are not the canonical part: an address whose raw spelling is longer than its canonical form is refused by one constructor and accepted by another")
+			return true
+		})
+	}
+	c.r.Floor(id, "uses of the length errors", n, 3)
 }
